@@ -18,6 +18,14 @@ Generated domain
   (d) LABEL SPELLINGS: in half of the programs labels are renamed (definition and every reference, references in
       any case) to register, internal-memory register, mnemonic, directive / section, mnemonic-prefixed and
       number-like names (M.apply_label_names); a reference is only written where the tree's parser reads a symbol.
+  (e) ASSEMBLER CONFIGURATION (round 5): in ~28 % of the programs (and on the objects of ~40 % of the histories) the
+      assembler is not plain `Assembler()` but carries an overridden SECTION_BASE_ADDRESSES map (bases from a pool
+      of page starts, ROM-card style and unaligned / just-below-a-page-boundary addresses that no `.ORG` slot run
+      can reach) and / or DEFAULT_SECTION = data, set as a class attribute of a subclass, inherited by a subclass
+      of that subclass, or as an attribute of the object; the layout model starts from the overridden map.
+  (f) STRING PAYLOAD (round 5): 45 % of the escape-free defm strings contain 1..3 raw TAB / VT / FF characters at
+      drawn positions; such a statement is written at a drawn column (0..6 spaces, tabs, mixed, or behind a label
+      on the same line); its reference bytes are the statement assembled alone.
 Oracle: layout model (c10_model.layout) for label addresses and byte placement, per-instruction standalone
 equivalence, operand-field extraction for label references, page rule, history independence.
 """
@@ -40,7 +48,12 @@ RULE = ("programs drawn from the assembler grammar (labels in front of most stat
         "per-instruction standalone assembly and operand-field extraction; plus assemble() call histories. "
         "Non-trivial program = assembles (or is rejected by the page rule as predicted) and has >= 1 forward and "
         ">= 1 backward symbolic reference and (>= 2 sections used or a .ORG); non-trivial history = >= 1 valid "
-        "program re-assembled after another call on the same object. Distinct = distinct source text hashes.")
+        "program re-assembled after another call on the same object. Distinct = distinct source text hashes. "
+        "Round 5: ~28 % of the programs are assembled by a CONFIGURED assembler (section map and/or default section "
+        "overridden on a subclass / grandchild / the object; labels config*, non-trivial = "
+        "config-with-symbolic-reference) and 45 % of the plain defm strings carry raw TAB/VT/FF characters at a "
+        "drawn column (labels string-raw-whitespace*, non-trivial = ...-followed-in-its-section); histories mix "
+        "configured and plain objects (history-with-configured-object).")
 
 # .ORG origins: pairwise >= 0x800 apart and away from the section bases, so that runs (<= 40 statements of <= 48
 # bytes) can never overlap; several sit just below a 64 KiB boundary.
@@ -55,6 +68,26 @@ MAX_DEFS = 48
 COMMENTS = ["note", "x: y", "NOP", 'say "hi"', "defb 1, 2", ".ORG 0x10", "SECTION data", "a;b"]
 STR_ALPHABET = "ABCXYZabcxyz0189 !#$%&'()*+,-./:;<=>?@[]^_{|}~"
 LABEL_STYLES = ["L{}", "lbl_{}", "_t{}", "Loop{}x", "dat{}", "Zq{}"]
+# Raw white-space control characters inside string literals (the string token admits every character but a newline)
+# and the wider set of indentations such a statement is written with (the column a statement stands at must not
+# matter to its bytes).
+RAW_WS_CHARS = ["\t", "\t", "\t", "\t", "\x0b", "\x0c"]
+WS_INDENTS = ["", " ", "  ", "   ", "    ", "     ", "\t", " \t", "\t ", "\t\t", "      "]
+
+
+def _base_pool() -> List[int]:
+    """Section bases an overriding configuration draws from: the stock bases, page starts, ROM-card style round
+    addresses and a few unaligned / just-below-a-page-boundary ones -- kept only where a run starting there
+    (<= 0x800 bytes, see SLOTS) can neither reach a `.ORG` slot nor be reached by the run of one, and inside the
+    address space.  Pairwise distance >= 0x800 is enforced when a map is drawn."""
+    cands = [0x00000, 0x02000, 0x02001, 0x06000, 0x0C000, 0x0EF00, 0x10800, 0x18000, 0x24000, 0x2FFF8, 0x30000,
+             0x40000, 0x4FFFD, 0x60000, 0x6FF00, 0x70000, 0x80000, 0x84000, 0x88001, 0x90000, 0x98000, 0xA8000,
+             0xB0000, 0xC0000, 0xCFFFA, 0xE0000, 0xF0000, 0xFE000]
+    return [b for b in cands if b + 0x800 <= 0x100000
+            and all(not (s_ < b + 0x800 and b < s_ + 0x800) for s_ in SLOTS)]
+
+
+BASE_POOL = _base_pool()
 
 _PALETTE: List[Dict[str, Any]] = []
 _PAL_SYM: List[Dict[str, Any]] = []
@@ -92,6 +125,24 @@ def _strategies() -> Any:
         kw = ["SECTION", "SECTION", "SECTION", "section", "Section", "SECTION"][v]
         nm = [name, name, name, name.upper(), name.capitalize(), name][v]
         return f"{kw} {nm}"
+
+    @st.composite
+    def configs(draw: Any) -> Dict[str, Any]:
+        """An assembler CONFIGURATION: the section map and / or the default section overridden on a subclass, on a
+        subclass of that subclass, or on the object.  Bases pairwise >= 0x800 apart; text shares the code base."""
+        how = draw(st.sampled_from(M.CONFIG_HOWS))
+        what = draw(pct)
+        bases: Optional[Dict[str, int]] = None
+        if what < 85:
+            chosen: List[int] = []
+            for _sec in ("code", "data", "bss"):
+                free = [b for b in BASE_POOL if all(abs(b - c) >= 0x800 for c in chosen)]
+                chosen.append(draw(st.sampled_from(free)))
+            if draw(pct) < 20:
+                chosen[0] = 0 if all(c >= 0x800 for c in chosen[1:]) else chosen[0]  # only the data side moves
+            bases = {"code": chosen[0], "text": chosen[0], "data": chosen[1], "bss": chosen[2]}
+        default = "data" if (what >= 85 or draw(pct) < 15) else None
+        return {"how": how, "bases": bases, "default": default}
 
     @st.composite
     def programs(draw: Any, max_lines: int, special: bool = True) -> Dict[str, Any]:
@@ -224,6 +275,12 @@ def _strategies() -> Any:
                         pieces = draw(st.lists(st.sampled_from(["\\n", "\\t", '\\"', "\\\\", "A", "z", "0", " "]),
                                                min_size=1, max_size=6))
                         body = body[:6] + "".join(pieces)
+                    elif draw(pct) < 45:
+                        # RAW white-space control characters (a tab-separated table, a form feed): string PAYLOAD
+                        # characters outside the printable alphabet, anywhere in the string
+                        for _k in range(draw(st.integers(1, 3))):
+                            at = draw(st.integers(0, len(body)))
+                            body = body[:at] + draw(st.sampled_from(RAW_WS_CHARS)) + body[at:]
                     stmt = {"t": "defm", "s": body}
                 else:
                     stmt = {"t": t, "args": [None] * draw(st.integers(1, 4))}
@@ -239,6 +296,8 @@ def _strategies() -> Any:
                 # a second label on its own line in front of a labelled statement (two names for one address)
                 lines.append(deco({"label": new_label(), "own_line": True, "stmt": None}))
             lines.append(deco(ln))
+            if stmt["t"] == "defm" and M.has_raw_ws(stmt["s"]):
+                ln["indent"] = draw(st.sampled_from(WS_INDENTS))  # the statement at every column
             if ln.get("join_prev"):
                 ln["blank"] = 0
                 lines[-2]["comment"] = None
@@ -311,6 +370,7 @@ def _strategies() -> Any:
                 lines.append(deco({"label": lb, "stmt": {"t": "instr", "shape": info["template"],
                                                          "ops": [None] * len(info["slots"])}}))
         prog = {"kind": "program", "lines": lines, "tail_raw": None}
+        prog["asm"] = draw(configs()) if special and draw(pct) < 28 else None
 
         # ---- operands: numeric first (sizes do not depend on operand values), then symbolic references
         for ln in lines:
@@ -411,7 +471,11 @@ def _strategies() -> Any:
         nobj = draw(st.integers(1, 3))
         calls = draw(st.lists(st.tuples(st.integers(0, nobj - 1), st.integers(0, nprog - 1)), min_size=3,
                               max_size=10))
-        return {"kind": "history", "programs": progs, "n_objs": nobj, "calls": [list(c) for c in calls]}
+        case = {"kind": "history", "programs": progs, "n_objs": nobj, "calls": [list(c) for c in calls]}
+        if draw(pct) < 40:
+            # objects of differently CONFIGURED assemblers (and plain ones) take turns in one process
+            case["configs"] = [draw(configs()) if draw(pct) < 60 else None for _ in range(nobj)]
+        return case
 
     return programs, histories
 
@@ -424,13 +488,15 @@ def _features(prog: Dict[str, Any]) -> Tuple[List[str], bool]:
     lines = prog["lines"]
     def_idx = {ln["label"].upper(): i for i, ln in enumerate(lines) if ln.get("label")}
     fwd = bwd = 0
-    sections = {"code"}
-    cur_sec = "code"
+    cfg = M.config_of(prog)
+    bases = M.bases_of(prog)
+    cur_sec = M.default_section_of(prog)
+    sections = {cur_sec}
     org = False
     lay = M.layout(prog)
     addr_of = {r["idx"]: r["addr"] for r in lay["recs"]}
     before_of = {r["idx"]: r["before"] for r in lay["recs"] if "before" in r}
-    run_start = {r["idx"]: (addr_of[r["owner"]] if r["owner"] is not None else M.SECTION_BASE[r["section"]])
+    run_start = {r["idx"]: (addr_of[r["owner"]] if r["owner"] is not None else bases[r["section"]])
                  for r in lay["recs"] if "owner" in r}
     referenced: Dict[str, List[str]] = {}
     for ln in lines:
@@ -527,6 +593,40 @@ def _features(prog: Dict[str, Any]) -> Tuple[List[str], bool]:
             elif any("sym" in a for a in stmt.get("args", []) if isinstance(a, dict)):
                 labels.append("data-symbolic")
             labels.append("stmt:" + (t if t != "instr" else "instr"))
+    if cfg:
+        labels.append("config")
+        labels.append("config:" + cfg["how"])
+        if cfg.get("bases"):
+            labels.append("config:section-map-overridden")
+            moved = sorted(k for k in ("code", "data", "bss") if bases[k] != M.SECTION_BASE[k])
+            labels.append("config:moved-" + "+".join(moved) if moved else "config:map-equal-to-stock")
+            if bases["code"] > 0xFFFF:
+                labels.append("config:code-base-on-a-high-page")
+            if any(bases[k] & 0xFF for k in bases):
+                labels.append("config:unaligned-base")
+        if cfg.get("default"):
+            labels.append("config:default-section-" + cfg["default"])
+        if fwd or bwd:
+            labels.append("config-with-symbolic-reference")  # the non-trivial ones: a label value is consumed
+    nws = 0
+    for i, ln in enumerate(lines):
+        stmt = ln.get("stmt")
+        if stmt and stmt["t"] == "defm" and M.has_raw_ws(stmt["s"]):
+            nws += 1
+            labels.append("string-raw-whitespace")
+            for ch, nm in (("\t", "TAB"), ("\x0b", "VT"), ("\x0c", "FF")):
+                if ch in stmt["s"]:
+                    labels.append("string-raw-whitespace:" + nm)
+            col = (len(ln["label"]) + 2) if (ln.get("label") and not ln.get("own_line")) else len(ln.get("indent", ""))
+            labels.append("string-raw-whitespace:" + ("label-on-the-same-line" if ln.get("label") and not ln.get("own_line")
+                                                       else "indent-with-tab" if "\t" in ln.get("indent", "")
+                                                       else f"indent-{len(ln.get('indent', ''))}-spaces"))
+            if col % 4:
+                labels.append("string-raw-whitespace:column-not-a-multiple-of-4")
+            # non-trivial: something is laid out behind the string in its section (a later label / statement)
+            sec = next((r["section"] for r in lay["recs"] if r["idx"] == i), None)
+            if any(r["idx"] > i and r["section"] == sec and not r.get("loc") for r in lay["recs"]):
+                labels.append("string-raw-whitespace-followed-in-its-section")
     if fwd:
         labels.append("has-forward-ref")
     if bwd:
@@ -564,20 +664,25 @@ def evaluate_program(prog: Dict[str, Any], rep: Report) -> List[Violation]:
 
 def evaluate_history(case: Dict[str, Any], rep: Report) -> List[Violation]:
     """Every assemble() result must equal the result of assembling the same source on a fresh object."""
-    from sc62015.pysc62015.sc_asm import Assembler
-
     viols: List[Violation] = []
     srcs = [M.render_program(p, split_pairs=True)[0] for p in case["programs"]]
-    refs = [M.fresh_assemble(s) for s in srcs]
-    objs = [Assembler() for _ in range(int(case["n_objs"]))]
+    cfgs: List[Optional[Dict[str, Any]]] = list(case.get("configs") or [None] * int(case["n_objs"]))
+    # reference: the same source on a NEW object of the same configuration, taken before the history runs
+    refs_by_obj = [[M.fresh_assemble(s, c) for s in srcs] for c in cfgs]
+    refs = refs_by_obj[0]
+    objs = [M.make_assembler(c) for c in cfgs]
     last: List[Optional[Tuple[int, bool]]] = [None] * len(objs)
     reassembled_valid = False
     for step, (oi, pi) in enumerate(case["calls"]):
         got = M.assemble(objs[oi], srcs[pi])
-        ref = refs[pi]
+        ref = refs_by_obj[oi][pi]
         prev = last[oi]
         if prev is None:
             where = "first call on an object" + ("" if step == 0 else " after calls on other objects")
+            if step and any(c for c in cfgs) :
+                where = ("first call on a " + ("configured" if cfgs[oi] else "plain")
+                         + " object after calls on " + ("configured" if any(cfgs[o] for o, _p in case["calls"][:step])
+                                                        else "plain") + " objects")
         else:
             where = ("same object, after a " + ("successful" if prev[1] else "failed") + " call with "
                      + ("the same" if prev[0] == pi else "another") + " program")
@@ -600,9 +705,13 @@ def evaluate_history(case: Dict[str, Any], rep: Report) -> List[Violation]:
             rep.violate(v)
         last[oi] = (pi, bool(got["ok"]))
     labels = ["history", f"history-objects:{case['n_objs']}"]
+    if any(cfgs):
+        labels.append("history-with-configured-object")
+        if not all(cfgs) and len(cfgs) > 1:
+            labels.append("history-configured-and-plain-objects")
     if any(not r["ok"] for r in refs):
         labels.append("history-with-failing-program")
-    key = "hist:" + jhash([srcs, case["calls"]]) if reassembled_valid else None
+    key = "hist:" + jhash([srcs, case["calls"], cfgs]) if reassembled_valid else None
     sample = {"history_calls": case["calls"], "sources": srcs} if rep.evaluations % 40 == 3 else None
     rep.case(key, labels, sample)
     return viols
@@ -657,7 +766,7 @@ def _task(task: Tuple[str, int, int, int, float]) -> Report:
 
 _XPROC_HELPER = ("import sys, json\n"
                  "from vp_harness import c10_model as M\n"
-                 "print(json.dumps([M.fresh_assemble(s) for s in json.load(sys.stdin)]))\n")
+                 "print(json.dumps([M.fresh_assemble(s, c) for s, c in json.load(sys.stdin)]))\n")
 
 
 def evaluate_xproc(progs: List[Dict[str, Any]], hashseed: int, rep: Report) -> List[Violation]:
@@ -668,11 +777,12 @@ def evaluate_xproc(progs: List[Dict[str, Any]], hashseed: int, rep: Report) -> L
     import sys
 
     srcs = [M.render_program(p, split_pairs=True)[0] for p in progs]
-    here = [M.fresh_assemble(x) for x in srcs]
+    cfgs = [M.config_of(p) for p in progs]
+    here = [M.fresh_assemble(x, c) for x, c in zip(srcs, cfgs)]
     env = dict(os.environ)
     env["PYTHONHASHSEED"] = str(hashseed)
     try:
-        out = subprocess.run([sys.executable, "-c", _XPROC_HELPER], input=json.dumps(srcs), capture_output=True,
+        out = subprocess.run([sys.executable, "-c", _XPROC_HELPER], input=json.dumps([[x, c] for x, c in zip(srcs, cfgs)]), capture_output=True,
                              text=True, env=env, timeout=600)
         there = json.loads(out.stdout.strip().splitlines()[-1])
     except Exception as exc:  # infrastructure, not a verdict
@@ -841,6 +951,14 @@ def run(ctx: Ctx) -> Report:
         "operand-less mnemonic (`JP XSC`) are not generated",
         "history verdicts compare with a fresh Assembler in the same process (module-level caches are already "
         "warm); error messages are compared on their first line",
+        "assembler configuration: SECTION_BASE_ADDRESSES ('sane defaults') and DEFAULT_SECTION are class attributes "
+        "the code reads through self, so a subclass or an object may override them; the model's layout then starts "
+        "from the overridden map / section. Only complete four-section maps (code = text base) with bases >= 0x800 "
+        "apart and away from every .ORG slot, and DEFAULT_SECTION in {code, data}, are generated; maps lacking a "
+        "section, user sections and mutation of the Assembler class itself are not",
+        "defm strings with raw TAB / VT / FF: the reference bytes are what the statement assembled alone (at column "
+        "0, plain Assembler) emits -- the same rule as for backslash sequences; CR and other control characters, "
+        "and non-ASCII characters, are not generated",
     ]
     if COVFUZZ:
         rep.assumptions.append(CF.ASSUMPTION)
